@@ -14,6 +14,7 @@ import (
 	"sync"
 	"time"
 	"unsafe"
+	"verifharness/lib"
 )
 
 type gCall struct {
@@ -38,6 +39,7 @@ type gCall struct {
 }
 
 type gHub struct {
+	kase     *lib.Case // hang account of the case this hub belongs to (nil: unclassified)
 	mu       sync.Mutex
 	seq      int64
 	calls    []*gCall
@@ -172,6 +174,7 @@ func (h *gHub) wait(deadline time.Duration, pred func() (done bool, err error)) 
 		case <-t.C:
 			if deadline >= time.Second {
 				gDeadlineHits.Add(1)
+				h.kase.Spend(deadline)
 			}
 			h.mu.Lock()
 			_, err := pred()
